@@ -1,5 +1,5 @@
 (* Driver of the extracted compiled-runtime model. stdin: <ninst> then per instance the integers written by
-   harness/compiled_worker.py:export_instance.  Output per instance: INST i / CHECK b / NMONO n / TTMATCH b / CHECKMONO b / TTCHECK b / CHECKSYM b / CHECKSYM_SMALLER b /
+   harness/compiled_worker.py:export_instance.  Output per instance: INST i / CHECK b / NMONO n / TTMATCH b / CHECKMONO b / TMPLOK b / SUPCOV b / TTCHECK b / CHECKSYM b / CHECKSYM_SMALLER b /
    NEED c v / WIN c k n (seq sent recv)* / ROW node seq ts state out nwins (len (seq sent recv pay)* )* *)
 open Cmodel
 let rec nat_of_int n = if n <= 0 then O else S (nat_of_int (n-1))
@@ -52,6 +52,8 @@ let instance idx =
   Printf.printf "NMONO %d\n" nm;
   Printf.printf "TTMATCH %d\n" (if to_timings_matches i mono then 1 else 0);
   Printf.printf "CHECKMONO %d\n" (if check_mono i (tmpl_of i) mono then 1 else 0);
+  Printf.printf "TMPLOK %d\n" (if tmpl_ok i (tmpl_of i) then 1 else 0);
+  Printf.printf "SUPCOV %d\n" (if sup_covered i mono then 1 else 0);
   Printf.printf "TTCHECK %d\n" (if check_schedule (set_slots i (to_timings i (tmpl_of i) mono)) then 1 else 0);
   let small = List.map (fun z -> z_of_int (max 1 (int_of_z z - 1))) sizes in
   Printf.printf "CHECKSYM_SMALLER %d\n" (if check_sym i small (nat_of_int p0) (nat_of_int n) then 1 else 0);
